@@ -144,6 +144,19 @@ CHECKS.update(
     }
 )
 
+CHECKS.update(
+    {
+        "C19": (
+            "Hypothesis-generated construction programs with a structural oracle; probe algos checking universe columns inside generated backtests; lazy-vs-eager differential runs",
+            "Generated construction programs (lists, dicts with renaming, strings, pre-built and lazily-added securities, nested strategies, late attachment, duplicates) are checked against the "
+            "described structure; generated backtests check every strategy's universe columns and sub-strategy columns on every run and that top-level settings reach lazily created children; "
+            "string children vs pre-constructed securities must give equal histories.",
+            "Lazy/eager comparison per node name at 1e-9 relative; two lazily-added securities of one name may collapse into one (names stay unique).",
+            "5/C19",
+        ),
+    }
+)
+
 NOT_YET = {}
 
 ALL = ["C%02d" % i for i in range(1, 21)]
